@@ -102,13 +102,7 @@ class C20(Prop):
                 c = dict(base, op="read", via=rng.choice(["handle", "handle", "read_nc"]), seed=i)
                 yield c
             elif r < 0.8:
-                base = c01.PROP.gen_case(rng, tier)
-                while base["spelling"] not in ("getitem", "loc", "ix", "iloc") or base["option"] != "label" or base.get("tol") \
-                        or any(len(ax["labels"]) == 0 for ax in base["array"]["axes"]) or not base["array"]["axes"]:
-                    base = c01.PROP.gen_case(rng, tier)
-                base["array"]["vkind"] = "f"
-                base.pop("keepdims", None)
-                yield dict(base, op="write", seed=i)
+                yield self.gen_history(rng, i)
             elif r < 0.88:
                 arr = gen.rand_array(rng, rank=rng.choice([1, 2]), maxn=3, minn=1)
                 arr["vkind"] = "f"
@@ -132,6 +126,74 @@ class C20(Prop):
                     ax["attrs_py"] = {}
                 dd["attrs"] = {}
                 yield {"op": "multi", "ds": dd, "n": rng.choice([2, 3]), "how": rng.choice(["stack", "concat"]), "seed": i}
+
+    def gen_history(self, rng, i):
+        """a stored variable and 1-4 on-disk assignments / reads through the handle"""
+        arr = gen.clean(gen.rand_array(rng, rank=rng.choice([1, 2, 2, 3]), maxn=4, minn=1))
+        arr["vkind"] = "f"
+        steps = []
+        for _ in range(rng.randint(1, 4)):
+            pos = rng.random() < 0.4
+            ixs, kinds = [], []
+            for ax in arr["axes"]:
+                ix, k = c01.PROP.gen_ix_pos(rng, len(ax["labels"])) if pos else c01.PROP.gen_ix_label(rng, ax)
+                ixs.append(ix); kinds.append(k)
+            steps.append({"kind": "write" if rng.random() < 0.6 else "read", "option": "label",
+                          "spelling": rng.choice(["ix", "iloc"]) if pos else rng.choice(["getitem", "loc"]),
+                          "mode": "position" if pos else "label", "as_array": rng.random() < 0.3,
+                          "index": {"form": "tuple", "ix": ixs}, "_ixkinds": kinds,
+                          "rhs": rng.choice(["scalar", "scalar", "array", "array_bcast"])})
+        return {"op": "history", "array": arr, "steps": steps, "seed": i}
+
+    def plan(self, c):
+        """per step: the case handed to call_take / call_put, the assigned value and its shape, the offset of
+        its cells in the right-hand-side vector (the selection shape depends on the axes only, which no
+        assignment changes)"""
+        a = core.build_array(c["array"], 0)
+        out = []
+        for k, st in enumerate(c["steps"]):
+            sc = dict(copy.deepcopy(st), array=c["array"])
+            base = 1000 * k
+            value, rshape, sel = base + 0.5, None, None
+            if st["kind"] == "write":
+                try:
+                    sel = tuple(np.shape(c01.call_take(a, copy.deepcopy(sc))))
+                except Exception:
+                    sel = None
+                if sel and st["rhs"] != "scalar":
+                    shp = sel
+                    if st["rhs"] == "array_bcast":
+                        shp = sel[1:] if len(sel) > 1 else (1,)
+                    n = int(np.prod(shp))
+                    if n > 0 or st["rhs"] == "array":
+                        value = (np.arange(n, dtype=float) + base + 0.5).reshape(shp)
+                        rshape = list(shp)
+            out.append({"case": sc, "value": value, "rshape": rshape, "base": base, "sel": sel})
+        return out
+
+    def history(self, c, paths):
+        a = core.build_array(c["array"], 0)
+        p = self.path(c); paths.append(p)
+        a.write_nc(p, "v", mode="w")
+        mem = da.read_nc(p, "v")
+        f = da.open_nc(p, mode="a")
+        h = Handle(f["v"])
+        res = []
+        for st in self.plan(c):
+            sc = st["case"]
+            if sc["kind"] == "read":
+                exp = core.guarded(lambda: obs(c01.call_take(mem, copy.deepcopy(sc))))
+                got = core.guarded(lambda: obs(c01.call_take(h, copy.deepcopy(sc))))
+            else:
+                def w(target):
+                    c01.call_put(target, dict(copy.deepcopy(sc), inplace=True, cast=False), st["value"])
+                    return None
+                exp = core.guarded(lambda: w(mem))
+                got = core.guarded(lambda: w(h))
+            res.append({"got": got, "expected": exp, "sel": st["sel"]})
+        f.close()
+        return {"ok": {"history": res, "got": core.guarded(lambda: obs(da.read_nc(p, "v"))), "expected": {"ok": obs(mem)},
+                       "input": obs(a)}}
 
     # ------------------------------------------------------------ implementation side
     def path(self, c, k=0):
@@ -179,6 +241,8 @@ class C20(Prop):
                     f.close()
                     got = core.guarded(lambda: obs(da.read_nc(p, "v"))) if "ok" in w else w
                     return {"ok": {"got": got, "expected": exp}}
+                if c["op"] == "history":
+                    return self.history(c, paths)
                 if c["op"] == "unlimited":
                     p = self.path(c); paths.append(p)
                     return self.unlimited(c, paths)
@@ -234,7 +298,68 @@ class C20(Prop):
         return {"ok": {"got": got, "expected": {"ok": obs(a)}}}
 
     def request(self, c):
+        if c["op"] == "read":
+            cfg = c01.cfg_of(c)
+            return {"op": "ondisk_history", "arrays": [core.lean_array(gen.clean(c["array"]), None)],
+                    "steps": [{"kind": "read", "index": c["index"], "cfg": cfg}]}
+        if c["op"] == "history":
+            steps = []
+            for st in self.plan(c):
+                cfg = c01.cfg_of(st["case"])
+                cfg["keepdims"] = False
+                steps.append({"kind": st["case"]["kind"], "index": st["case"]["index"], "cfg": cfg, "rshape": st["rshape"],
+                              "base": st["base"]})
+            return {"op": "ondisk_history", "arrays": [core.lean_array(gen.clean(c["array"]), None)], "steps": steps}
+        if c["op"] == "unlimited":
+            arr = c["array"]
+            n0 = len(arr["axes"][0]["labels"])
+            rec = int(np.prod([len(ax["labels"]) for ax in arr["axes"][1:]])) if len(arr["axes"]) > 1 else 1
+            start = dict(arr, axes=[dict(arr["axes"][0], labels=[])] + arr["axes"][1:])
+            steps = [{"kind": "record", "pos": i, "label": ["n", i, 1], "base": i * rec, "n": rec} for i in range(n0)]
+            return {"op": "ondisk_history", "arrays": [core.lean_array(gen.clean(start), None)], "steps": steps}
         return {"op": "union", "a": {"name": "x", "kind": "i", "labels": []}, "b": {"name": "x", "kind": "i", "labels": []}, "join": "outer"}
+
+    def lean_vs_impl(self, c, io, ans):
+        """correspondence: the Lean on-disk model against the on-disk implementation"""
+        bad = []
+        if "ok" not in io or "lib" not in ans or not isinstance(ans["lib"], list):
+            return bad
+        o = io["ok"]
+        if c["op"] == "read":
+            a = core.build_array(c["array"], 0)
+            env = core.CellEnv([a.values])
+            bad += ["lean.read." + x for x in self.cmp_lean(ans["lib"][0], o["got"], env)]
+        elif c["op"] == "history":
+            a = core.build_array(c["array"], 0)
+            plan = self.plan(c)
+            rhs = np.zeros(1000 * (len(plan) + 1))
+            for st in plan:
+                v = np.asarray(st["value"], dtype=float).reshape(-1)
+                rhs[st["base"]:st["base"] + v.size] = v
+            env = core.CellEnv([a.values], rhs=rhs)
+            for k, (st, r, l) in enumerate(zip(plan, o["history"], ans["lib"])):
+                if st["case"]["kind"] == "read":
+                    bad += ["lean.step%d." % k + x for x in self.cmp_lean(l, r["got"], env)]
+                elif ("err" in l) != ("err" in r["got"]) or ("err" in l and l["err"] != r["got"]["err"]):
+                    bad.append("lean.step%d.outcome" % k)
+            bad += ["lean.final." + x for x in self.cmp_lean({"ok": ans["final"]}, o["got"], env)]
+        elif c["op"] == "unlimited":
+            a = core.build_array(c["array"], 0)
+            env = core.CellEnv([a.values], rhs=np.asarray(a.values, dtype=float).reshape(-1))
+            if any("err" in l for l in ans["lib"]):
+                bad.append("lean.record.outcome")
+            else:
+                bad += ["lean.final." + x for x in self.cmp_lean({"ok": ans["final"]}, o["got"], env)]
+        return bad
+
+    def cmp_lean(self, l, got, env):
+        if "err" in l or "err" in got:
+            if ("err" in l) != ("err" in got):
+                return ["outcome"]
+            return [] if l["err"] == got["err"] else ["errclass"]
+        lo = core.lean_obs_to_canon(l["ok"], env)
+        lo["scalar"] = got["ok"].get("scalar", False)
+        return core.diff_obs(got, {"ok": lo}, keys=("dims", "shape", "axes", "values"))
 
     def judge(self, c, io, ans):
         prop_bad = []
@@ -255,9 +380,21 @@ class C20(Prop):
                                 prop_bad.append("multi.var:" + k)
             elif not same(got, exp):
                 prop_bad.append("ondisk_differs_from_memory")
-        if not prop_bad:
+            for k, r in enumerate(io["ok"].get("history", [])):
+                g, e = r["got"], r["expected"]
+                if c["steps"][k]["kind"] == "read":
+                    if not same(g, e):
+                        prop_bad.append("history.read%d" % k)
+                elif ("err" in g) != ("err" in e) or ("err" in g and g["err"] != e["err"]):
+                    # NumPy does not bounds-check integer lists when another dimension selects nothing; netCDF4
+                    # does.  Nothing is written either way, so this is not a difference in what is stored.
+                    if "err" in g and g["err"] == "index" and "ok" in e and r["sel"] is not None and 0 in r["sel"]:
+                        continue
+                    prop_bad.append("history.write%d.outcome" % k)
+        bad = [] if prop_bad else self.lean_vs_impl(c, io, ans)
+        if not prop_bad and not bad:
             return None
-        return {"kind": "P", "differs": sorted(set(prop_bad)), "msg": io.get("msg"),
+        return {"kind": "P" if prop_bad else "M", "differs": sorted(set(prop_bad + bad)), "msg": io.get("msg"),
                 "got": io.get("ok", {}).get("got") if "ok" in io else None, "expected": io.get("ok", {}).get("expected") if "ok" in io else None}
 
     def known(self, c, io, ans, mm, open_findings):
@@ -270,6 +407,16 @@ class C20(Prop):
 
     def features(self, c, io):
         f = {"outcome": "err:" + io["err"] if "err" in io else "ok", "op": c["op"]}
+        if c["op"] == "history":
+            f["nsteps"] = len(c["steps"]); f["rank"] = len(c["array"]["axes"])
+            for st in c["steps"]:
+                f["step:" + st["kind"] + ":" + st["mode"]] = 1
+                if st["kind"] == "write":
+                    f["rhs:" + st["rhs"]] = 1
+                for k in st["_ixkinds"]:
+                    f["ix:" + k] = 1
+            if "ok" in io:
+                f["write_errors"] = sum(1 for r in io["ok"]["history"] if "err" in r["got"])
         if c["op"] in ("read", "write"):
             f["spelling"] = c["spelling"]; f["mode"] = c["mode"]; f["rank"] = len(c["array"]["axes"]); f["via"] = c.get("via")
             if "ok" in io:
